@@ -22,11 +22,12 @@ Decided from the source, for all operand counts n in N (interval arithmetic):
       at exactly one site and hands it the operand list itself (never the inside
       of an operand's value): {op: x} stays {op: [x]} after parsing too;
 """
-import json, os
+import json, os, re
 from .core import (callee_path, callee_of, strip_refs, strip_payload, edge_dominates,
                    switch_edges_for_variant, bool_edge, const_value, show_expr, expr_mentions)
 from .engine import Inconclusive, VERIF
 from . import table as T
+from . import panic as PN
 from .dispatch import Dispatcher, VALUE
 
 INF = float("inf")
@@ -383,14 +384,54 @@ def run(ctx):
                     defs = None
                     break
                 defs.append(inner)
-        ctx.need(defs is not None, "operand vector is not a two-way join (bracketed / unbracketed forms)")
+        built_in_place = None
+        if defs is None and vec_of_len and vec_of_len[0] == "call" and vec_of_len[1] and re.search(r"Vec::<T>::(new|with_capacity)$", vec_of_len[1]["path"]):
+            # `let mut args = Vec::new(); if array { args.extend(items) } else if unary { args.push(x) } else { return Err }`:
+            # the list is what the mutations put into it
+            vl = b.blocks[vec_of_len[3]]["term"]["dest"]["local"]
+            muts = []
+            for mbi, mt in b.calls():
+                mp = callee_path(mt) or ""
+                if not mt["args"]:
+                    continue
+                tgt0 = strip_refs(b.trace(mt["args"][0]))
+                if not (tgt0[0] == "call" and len(tgt0) > 3 and tgt0[3] == vec_of_len[3]):
+                    continue
+                if re.search(r"Vec::<T, A>::(len|is_empty|capacity|iter|as_slice|first|last|get)$|Deref>::deref$", mp):
+                    continue
+                muts.append((mbi, mt, mp))
+            built_in_place = muts
+        if built_in_place is None:
+            ctx.need(defs is not None, "operand vector is not a two-way join (bracketed / unbracketed forms)")
         ubi = roles["unary"][1]
         usw = [bi for bi in b.reachable() if b.blocks[bi]["term"]["k"] == "SwitchInt" and strip_refs(b.trace(b.blocks[bi]["term"]["discr"]))[0] == "call" and strip_refs(b.trace(b.blocks[bi]["term"]["discr"]))[1].get("key") == roles["unary"][0]]
         ctx.need(len(usw) == 1, "dispatcher does not branch exactly once on unary acceptance")
         t_edge = (usw[0], bool_edge(b, usw[0], True))
         f_tgt = bool_edge(b, usw[0], False)
         seen_forms = set()
-        for n, d in enumerate(defs):
+        for n, (mbi, mt, mp) in enumerate(built_in_place or []):
+            if re.search(r"Vec::<T, A>::push$", mp) and len(mt["args"]) == 2 and strip_refs(b.trace(mt["args"][1])) == operand:
+                under = edge_dominates(b, t_edge[0], t_edge[1], mbi)
+                ctx.check(under, "K4.unary-guard", "unbracketed form only under unary acceptance (%s)" % cfg, "a non-array operand is pushed as the single operand without the unary-acceptance test", where=b.where(mbi), fn=b.key, nontrivial=True)
+                # pushed once: not inside a loop
+                ctx.check(not any(mbi in blocks for (_h, blocks, _s) in PN.loops_of(b)), "K4.wrap", "unbracketed operand x becomes exactly [x] (%s)" % cfg, "the operand is pushed inside a loop", where=b.where(mbi), fn=b.key, nontrivial=True)
+                seen_forms.add("unbracketed")
+                continue
+            if re.search(r"Vec::<T, A>::(extend|extend_from_slice)$|as std::iter::Extend<.*>>::extend$", mp) and len(mt["args"]) == 2:
+                src_ = strip_refs(b.trace(mt["args"][1]))
+                while src_[0] == "call" and src_[1] and re.search(r"(::iter|::into_iter|IntoIterator>::into_iter|Deref>::deref|::as_slice)$", src_[1]["path"]) and src_[2]:
+                    src_ = strip_refs(src_[2][0])
+                if src_[0] == "field" and src_[1][0] == "downcast" and src_[1][2] == "Array" and strip_refs(src_[1][1]) == operand:
+                    under = edge_dominates(b, obi, arr[0], mbi)
+                    ctx.check(under, "K4.bracketed", "bracketed form = the array's elements in order (%s)" % cfg, "the array's elements are used as operands on a path where the operand is not known to be an array", where=b.where(mbi), fn=b.key, nontrivial=True)
+                    seen_forms.add("bracketed")
+                    continue
+            ctx.fail("K4.other-form", "operand list mutation #%d (%s)" % (n, cfg), "{op: x} must mean exactly {op: [x]}: the operand list is also modified by %s" % mp, where=b.where(mbi), fn=b.key)
+        if built_in_place is not None:
+            npush = sum(1 for (_b, mt_, mp_) in built_in_place if re.search(r"Vec::<T, A>::push$", mp_))
+            next_ = sum(1 for (_b, mt_, mp_) in built_in_place if re.search(r"(extend|extend_from_slice)$", mp_))
+            ctx.check(npush <= 1 and next_ <= 1, "K4.wrap", "the operand list is filled at one site per form (%s)" % cfg, "the operand list is pushed to at %d sites and extended at %d: {op: x} would not be exactly {op: [x]}" % (npush, next_), where=b.where(obi), fn=b.key, nontrivial=True)
+        for n, d in enumerate(defs or []):
             dbi = d[1]
             if dbi not in b.reachable():
                 continue
